@@ -753,3 +753,37 @@ package varlink
 //@   ensures [info C13] result == nil ==> gCallErr == nil && (vendor != nil ==> *vendor == gIVendor) && (product != nil ==> *product == gIProduct) && (version != nil ==> *version == gIVersion) && (url != nil ==> *url == gIURL) && (interfaces != nil ==> *interfaces == gIIfaces)
 //@   ensures [info-err C13] result != nil ==> result == gCallErr
 //@   assert [copy C13] at return#2 : (vendor != nil ==> *vendor == rep.Vendor) && (product != nil ==> *product == rep.Product) && (version != nil ==> *version == rep.Version) && (url != nil ==> *url == rep.URL) && (interfaces != nil ==> *interfaces == rep.Interfaces)
+
+// ---- remaining entry points: resolver construction, bridge entry point, bridge close
+
+//@ ghost gNResAddr string
+//@ ghost gNResConn ref
+//@ ghost gNResErr iface
+
+//@ func NewResolver {C13 C19 | safety: C19}
+//@   modifies bufLo, bufHi, gNewConn, gNResAddr, gNResConn, gNResErr
+//@   ghostset at call(NewConnection)#1 : gNResAddr = arg1
+//@   ghostset at call(NewConnection)#1 : gNResConn = res0
+//@   ghostset at call(NewConnection)#1 : gNResErr = res1
+//@   assert [addr C19] at call(NewConnection)#1 : arg0 == ctx && (old(address) == "" ==> arg1 == "unix:/run/org.varlink.resolver") && (old(address) != "" ==> arg1 == old(address))
+//@   ensures [ok C13 C19] result1 == nil ==> gNResErr == nil && result0 != nil && fresh(result0) && result0.conn == gNResConn && result0.conn != nil && result0.address == gNResAddr
+//@   ensures [fail C19] result1 != nil ==> result0 == nil && result1 == gNResErr
+
+//@ func (*Resolver).Close {C10}
+//@   requires [nn] r != nil && r.conn != nil && r.conn.conn != nil && r.conn.conn.conn != nil
+//@   modifies closed
+
+//@ ghost gBrConn ref
+//@ ghost gBrErr iface
+
+//@ func NewBridge {C03 | safety: C11}
+//@   modifies gOut, gIn, anyfield(exec.Cmd.Stderr), bufLo, bufHi, gNewConn, gBrConn, gBrErr
+//@   ghostset at call(NewBridgeWithStderr)#1 : gBrConn = res0
+//@   ghostset at call(NewBridgeWithStderr)#1 : gBrErr = res1
+//@   assert [fwd C03] at call(NewBridgeWithStderr)#1 : arg0 == bridge
+//@   ensures [same C03] result0 == gBrConn && result1 == gBrErr
+
+//@ func (PipeCon).Close {C17 | safety: C11}
+//@   requires [nn] p.reader != nil && p.writer != nil && p.cmd != nil
+//@   modifies closed
+//@   ensures [both C17] closed[p.reader] && closed[p.writer]
